@@ -194,10 +194,20 @@ def _register_component_fn(
     name: str,
     expr: sympy.Expr,
     args: list[str],
+    taken: frozenset[str] = frozenset(),
 ) -> str:
-    """Register the function of a derived quantity or reaction under its own name."""
-    while name in _RESERVED_FN_NAMES:
-        name = f"{name}_"
+    """Register the function of a derived quantity or reaction under its own name.
+
+    A name the generated module uses itself is moved to one that is free: neither the
+    name of another component's function (taken) nor of another registered function.
+    """
+    if name in _RESERVED_FN_NAMES:
+        while (
+            name in _RESERVED_FN_NAMES
+            or name in taken
+            or (name in functions and functions[name] != (expr, args))
+        ):
+            name = f"{name}_"
     functions[name] = (expr, args)
     return name
 
@@ -273,7 +283,9 @@ def generate_mxlpy_code_from_symbolic_repr(
     # Derived
     derived_source = []
     for k, fn in model.derived.items():
-        fn_name = _register_component_fn(functions, fn.fn_name, fn.expr, fn.args)
+        fn_name = _register_component_fn(
+            functions, fn.fn_name, fn.expr, fn.args, taken
+        )
         derived_source.append(
             f"""        .add_derived(
                 {k!r},
@@ -287,7 +299,7 @@ def generate_mxlpy_code_from_symbolic_repr(
     for k, rxn in model.reactions.items():
         fn = rxn.fn
         rxn_fn_name = _register_component_fn(
-            functions, fn.fn_name, fn.expr, fn.args
+            functions, fn.fn_name, fn.expr, fn.args, taken
         )
 
         stoichiometry: list[str] = []
